@@ -4,8 +4,19 @@ from vlib import *
 import progcheck as pc
 
 MODULES = ["Mimium.Props.C02"]
-PROFILES_QUICK = [("core", 2500), ("deep", 600), ("stateless", 400), ("aggr", 500), ("closure_assign", 300), ("nested", 300), ("nested_assign", 300)]
-PROFILES_THOROUGH = [("core", 12000), ("deep", 3000), ("stateless", 2000), ("aggr", 5000), ("closure_assign", 3000), ("nested", 3000), ("nested_assign", 3000)]
+PROFILES_QUICK = [("core", 2500), ("deep", 600), ("stateless", 400), ("aggr", 500), ("closure_assign", 300), ("nested", 400), ("nested_assign", 900)]
+PROFILES_THOROUGH = [("core", 12000), ("deep", 3000), ("stateless", 2000), ("aggr", 5000), ("closure_assign", 3000), ("nested", 3000), ("nested_assign", 8000)]
+
+
+def corpus_cases(pid):
+    """corpus/<pid>/*.json: hand-written programs (with their S-expression when the model is to judge them), run first"""
+    d = os.path.join(VERIF, "corpus", pid)
+    out = []
+    for fn in sorted(os.listdir(d)) if os.path.isdir(d) else []:
+        if fn.endswith(".json"):
+            c = json.load(open(os.path.join(d, fn)))
+            out.append({"id": "corpus:" + fn[:-5], "src": c["src"], "sx": c.get("sx"), "inputs": c.get("inputs", []), "times": c.get("times", 4)})
+    return out
 
 
 def judge(vm, model):
@@ -43,7 +54,8 @@ def main(ctx, args, pid="C02", backend="vm"):
         res = pc.run_batch(cases, backends=backend, nshards=1, want_mir=True)
         allcases = cases
     else:
-        allcases = []
+        allcases = corpus_cases(pid if pid in ("C01", "C02") else "C02")
+        gstats["corpus_programs"] += len(allcases)
         for prof, n in (PROFILES_QUICK if ctx.tier == "quick" else PROFILES_THOROUGH):
             cs, st = pc.gen_cases(ctx.seed, n, prof, times)
             gstats.update(st)
